@@ -1,6 +1,12 @@
 HOOK_COMMITS = []
 NOT_APPLICABLE = {}
 META = {
+    "C03": dict(
+        engine="E4 udp",
+        technique="Lean 4 theorems on the packet-handler model (decision logic of Handle/validatePacket, in-place buffer arithmetic of timedCopy by omega); model tied by differential correspondence with the real handler over real sockets",
+        text="Kernel-checked: forwarding implies authentication under a configured key (new client) or the association's key (known client), payload = plaintext after the header, search completeness for any list order, no effects without a key, reply layout salt‖seal(assoc key, true source ‖ body), truncated reads never relayed. The model is compared effect by effect with the real handler on ~2.5k datagram ops per quick run.",
+        note="Trusted: Lean kernel; hand model validated differentially; spec-level crypto in the harness; AEAD strength and RNG freshness are contracts (salt freshness is checked empirically pairwise).",
+    ),
     "C05": dict(
         engine="E1 bytes/addr (ip)",
         technique="Lean 4 theorems over all 4-byte, IPv4-mapped and 16-byte values (byte-mask lemmas by kernel evaluation over 256 values, then grind); model tied by differential correspondence with onet.RequirePublicIP and a numeric-range oracle",
